@@ -78,7 +78,7 @@ class Sys3:
 def cfg_tag(cfg):
     doms = ",".join(f"{n}:{e}/{r}" for n, (e, r) in sorted(cfg["doms"].items(), reverse=True))
     return f"doms[{doms}];top[{','.join(cfg['top'])}];sub[{','.join(cfg['sub'])}]" + (";b" if cfg.get("logic_b") else "") + \
-        (";ports=" + cfg["ports"] if cfg.get("ports", "n") != "n" else "")
+        (";ports=" + cfg["ports"] if cfg.get("ports", "n") != "n" else "") + (";order=ba" if cfg.get("order", "ab") == "ba" else "")
 
 
 class C03Spec:
@@ -86,7 +86,8 @@ class C03Spec:
     module, innermost first], "sub": [wrappers applied to the leaf submodule], "logic_b": bool}"""
     def __init__(self, cfg):
         self.cfg = {"doms": {k: tuple(v) for k, v in cfg["doms"].items()}, "top": list(cfg["top"]),
-                    "sub": list(cfg["sub"]), "logic_b": bool(cfg.get("logic_b")), "ports": cfg.get("ports", "n")}
+                    "sub": list(cfg["sub"]), "logic_b": bool(cfg.get("logic_b")), "ports": cfg.get("ports", "n"),
+                    "order": cfg.get("order", "ab")}
         self.model = Model(self.cfg)
         mdl = self.model
         n_in = len(mdl.sync_inputs)
@@ -95,7 +96,7 @@ class C03Spec:
 
     def describe(self):
         return {"doms": {k: list(v) for k, v in self.cfg["doms"].items()}, "top": self.cfg["top"], "sub": self.cfg["sub"],
-                "logic_b": self.cfg["logic_b"], "ports": self.cfg["ports"]}
+                "logic_b": self.cfg["logic_b"], "ports": self.cfg["ports"], "order": self.cfg["order"]}
 
     # -- the real design, through the public API only
     def build(self):
@@ -158,6 +159,10 @@ class C03Spec:
         class Core(Elaboratable):
             def elaborate(self, platform):
                 m = Module()
+                def in_other():
+                    m.d.other += [cntb.eq(cntb + 1), rlb.eq(~rlb), sq[1].eq(~sq[1])]
+                if logic_b and cfg["order"] == "ba":      # this module uses m.d.other before m.d.sync
+                    in_other()
                 # (same behaviour as cnt+1 / ~rl / ~sp[0]; written through If/Else and a slice of a Cat target
                 # so that the inserters have to find the driven bits through control flow and compound targets)
                 with m.If(cnt[0]):
@@ -166,8 +171,9 @@ class C03Spec:
                     m.d.sync += cnt.eq(cnt + 1)
                 m.d.sync += Cat(rl, sp)[0:2].eq(~Cat(rl, sp)[0:2])
                 if logic_b:
-                    m.d.other += [cntb.eq(cntb + 1), rlb.eq(~rlb), sq[1].eq(~sq[1])]
                     m.d.sync += sq[0].eq(~sq[0])
+                    if cfg["order"] == "ab":
+                        in_other()
                 m.submodules.leaf = wrap(Leaf(), cfg["sub"])
                 return m
 
@@ -236,9 +242,8 @@ def configs(rep):
     none_sync = {"sync": ("pos", "none"), "other": ("neg", "sync")}
     pair0 = {"sync": ("pos", "sync"), "other": ("neg", "async")}
     if rep.quick:
-        for n in (2, 1):
-            for seq in itertools.product(["R3", "E3"], repeat=n):
-                out.append({"doms": none2, "top": list(seq), "sub": [], "logic_b": True})
+        for seq in (["R3", "E3"], ["E3", "R3"], ["R3"], ["E3"]):
+            out.append({"doms": none2, "top": seq, "sub": [], "logic_b": True})
         for w in ("R3", "E3"):
             out.append({"doms": none_sync, "top": [w], "sub": [], "logic_b": True})
     else:
@@ -255,6 +260,28 @@ def configs(rep):
         out.append({"doms": {"sync": ka}, "top": [], "sub": [], "logic_b": False, "ports": "nt"})
         for kb in KINDS:
             out.append({"doms": {"sync": ka, "other": kb}, "top": [], "sub": [], "logic_b": True})
+    # family R: renames whose target already carries statements in the same module (DR over the two-domain core), and
+    # renames that merge two source domains into a third one (DM), for both orders of first use of the domains in the
+    # module, alone and nested with inserters; parent/child merges with the memory ports and the split signal
+    none3 = dict(none2, tgt=("pos", "none"))
+    for order in ("ab", "ba"):
+        fam = [(none2, ["DR"], []), (none_sync, ["DR"], []), (pair0, ["DR"], [])]
+        fam += [(none2, t, []) for t in (["R2", "DR"], ["DR", "R2"], ["E2", "DR"], ["DR", "E2"], ["R3", "DR"], ["E3", "DR"])]
+        fam += [(none3, ["DM"], []), (none3, [], ["DM"]), (none3, ["DM"], ["E1"]), (none3, ["DR", "DM"], [])]
+        fam += [(none3, t, []) for t in (["R2", "DM"], ["DM", "R2"], ["E2", "DM"], ["DM", "E2"])]
+        # (per-domain controls inside a merge: the two largest graphs; quick takes one order of each)
+        fam += [(none3, t, []) for t, o in ((["R3", "DM"], "ab"), (["E3", "DM"], "ba")) if o == order or not rep.quick]
+        if not rep.quick:
+            for kt in KINDS:
+                d3 = dict(none2, tgt=kt)
+                fam += [(d3, t, []) for t in (["DM"], ["R2", "DM"], ["E2", "DM"], ["DM", "E2"])]
+            fam += [(dict(pair0, tgt=("pos", "sync")), ["DM"], []), (dict(pair0, tgt=("neg", "async")), ["E2", "DM"], [])]
+        for doms, top, sub in fam:
+            c = {"doms": doms, "top": top, "sub": sub, "logic_b": True, "order": order}
+            if c not in out:
+                out.append(c)
+    for top in (["DM"], ["R2", "DM"], ["E2", "DM"], ["DM", "E2"]):
+        out.append({"doms": none3, "top": top, "sub": [], "logic_b": False, "ports": "nt"})
     # family W: every nesting of wrappers at the top / at the submodule; the memory has the ordinary and the transparent
     # read port ("nt"); the transparent one is addressed by the free input d
     for sub, top in nestings(full, rep.pick(2, 3)):
@@ -316,12 +343,17 @@ NEED = ["active_edge", "inactive_edge", "simultaneous_active_edges", "other_doma
         "mem_ports_renamed", "renamed_logic_clocked_by_target", "partial_signal_reset", "reset_less_domain_edge",
         "per_domain_reset_applied", "per_domain_enable_freezes", "idle_domain_reset_control_asserted",
         "idle_domain_enable_control_deasserted", "transparent_read", "transparent_read_sees_same_edge_write",
-        "transparent_read_gated_by_enable", "gated_transparent_read_would_change", "gated_read_would_change"]
+        "transparent_read_gated_by_enable", "gated_transparent_read_would_change", "gated_read_would_change",
+        "rename_onto_populated_domain_same_module:ab", "rename_onto_populated_domain_same_module:ba",
+        "merge_two_sources_same_module:ab", "merge_two_sources_same_module:ba", "merge_sources_of_parent_and_child"]
 
 
 def run(rep):
     cfgs = configs(rep)
     replay_n = rep.pick(3, 8)
+    # largest graphs first (balance of the pool); the seed only rotates
+    cost = lambda c: len(C03Spec(c).actions) * (4 if c.get("logic_b") else 1)
+    cfgs = sorted(cfgs, key=cost, reverse=True)
     tasks = rotate([(c, replay_n) for c in cfgs], rep.seed)
     allflags = set()
     for r in pmap(run_config, tasks, rep.procs):
@@ -332,6 +364,8 @@ def run(rep):
         rep.add("designs_with_wrappers" if (r["cfg"]["top"] or r["cfg"]["sub"]) else "designs_domain_kinds_only", 1)
         if "t" in r["cfg"].get("ports", "n"):
             rep.add("designs_with_transparent_read_port", 1)
+        if any(f.startswith(("rename_onto_populated", "merge_")) for f in r["flags"]):
+            rep.add("designs_with_merging_renames", 1)
         if {"R3", "E3"} & set(r["cfg"]["top"] + r["cfg"]["sub"]):
             rep.add("designs_with_per_domain_controls", 1)
         allflags.update(r["flags"])
@@ -360,8 +394,10 @@ def run(rep):
                "{data bit, inserted controls, synchronous domain resets} followed by every single level event (toggle of any "
                "non-empty subset of clocks at once | flip of one asynchronous reset); complete state compared after every event. "
                "Designs: all 6 single-domain and all 36 two-domain kind combinations (pos/neg x sync/async/reset-less) without "
-               "wrappers; inserters with a distinct control per domain (R3, E3) around one module holding registers of both "
-               "domains and a split signal: " + rep.pick("every top nesting of <= 2 over two reset-less domains, single ones over a "
+               "wrappers; DomainRenamer maps onto a domain that already has statements in the same module and maps merging two "
+               "source domains into a third one (same module, both orders of first use; parent/child), alone and nested with "
+               "inserters; inserters with a distinct control per domain (R3, E3) around one module holding registers of both "
+               "domains and a split signal: " + rep.pick("R3, E3 and both nestings of the two over two reset-less domains, single ones over a "
                "reset-less + sync-reset pair", "every (submodule, top) nesting of <= 2 over 3 domain pairs and every pair with one other wrapper") + "; "
                + rep.pick(
                    "every (submodule, top) nesting of <= 2 wrappers from {R1,R2,E1,E2,DR} over the domain pair sync=pos/sync-reset, "
